@@ -191,7 +191,7 @@ def includeOp : Handler := fun args =>
 
 /-! ### depends_on -/
 
-def graphOfJson : Json → Dep.G
+def graphOfJson : Json → Dep.G String
   | .arr a => a.toList.filterMap fun e => match e with
     | .arr #[.str n, .arr cs] => some (n, cs.toList.filterMap fun c => match c with | .str s => some s | _ => none)
     | _ => none
